@@ -15,6 +15,7 @@
 package gocql
 
 import (
+	"math"
 	"context"
 	"errors"
 	"fmt"
@@ -250,7 +251,8 @@ func vxC13Draw(t *rapid.T, forceSpec bool) *vxC13Case {
 	c.Policy.Via = rapid.SampledFrom([]string{"query", "query", "cluster", "override"}).Draw(t, "policy_via")
 	switch c.Policy.Kind {
 	case "simple", "expo":
-		c.Policy.N = rapid.SampledFrom([]int{2, 1, 3, 2, 1, 3, 0}).Draw(t, "numretries")
+		// ... and "as often as the plan offers a host": the largest numbers
+		c.Policy.N = rapid.SampledFrom([]int{2, 1, 3, 2, 1, 3, 0, math.MaxInt32, math.MaxInt64}).Draw(t, "numretries")
 	case "down":
 		n := rapid.SampledFrom([]int{2, 3, 1, 2, 3, 0}).Draw(t, "nlevels")
 		c.Policy.Levels = []int{}
@@ -616,6 +618,9 @@ func (r *vxC13Ref) downgradingDecision(e vxC13Res, oc vxC13Outcome) int {
 func (c *vxC13Case) perExecBudget() int {
 	switch c.Policy.Kind {
 	case "simple", "expo":
+		if c.Policy.N >= math.MaxInt32 {
+			return math.MaxInt32
+		}
 		return 1 + c.Policy.N
 	case "down":
 		return 1 + len(c.Policy.Levels)
